@@ -112,6 +112,12 @@ func VH_C18_match() {
 		// what a letter query does with a non-letter sequence byte is not stated by C18
 		vAssume(vOr(vBaseSet(c) != 0, vAnd(vBaseSet(q[0]) == 0, vLower(c) == vLower(q[0]))))
 	}
+	for j := range q {
+		for k := j; k < sn && k-j+qn <= sn; k++ {
+			// a letter query byte aligned with a non-letter sequence byte: not stated by C18 either
+			vAssume(vImplies(vBaseSet(q[j]) != 0, vBaseSet(s[k]) != 0))
+		}
+	}
 	for _, c := range q {
 		vAssume(vAnd(c != '\n', c < 128)) // `.` does not match a newline; non-ASCII bytes are cut by ToLower anyway
 	}
